@@ -3,6 +3,7 @@ package main
 import (
 	"bytes"
 	"fmt"
+	"github.com/ethereum/go-ethereum/core/types/goattypes"
 	"math/big"
 
 	"github.com/btcsuite/btcd/btcec/v2/schnorr"
@@ -36,8 +37,9 @@ type btcModel struct {
 	Paid     map[uint64]bool
 	Refunded map[uint64]bool
 	History  map[uint64][]bitcointypes.WithdrawalStatus
-	UserMax  map[uint64]uint64 // withdrawal id -> the user's latest fee ceiling (from the requests, not from the chain)
-	tips     []uint64          // voted tip before each tx of the block being judged
+	PaidAmt  map[uint64]*big.Int // withdrawal id -> wei the execution layer must be told when it is paid
+	UserMax  map[uint64]uint64   // withdrawal id -> the user's latest fee ceiling (from the requests, not from the chain)
+	tips     []uint64            // voted tip before each tx of the block being judged
 }
 
 func newBtcModel(w *World) *btcModel {
@@ -329,6 +331,19 @@ func (w *World) oracleBitcoin(bi *BlockInfo) {
 		w.violate("C17", "current-key-differs-from-model", "curkey", "height %d: the recorded relayer key is not the last one accepted by vote", b.Height)
 	}
 
+	// C05: the amount the execution layer is told for a paid withdrawal is the proven transaction's output
+	if bi.ELBlock != nil && bi.MsgOK {
+		for _, g := range bi.ELBlock.GoatTxs {
+			if pt, ok := g.Tx.(*goattypes.PaidTx); ok {
+				if pt.Id == nil || !pt.Id.IsUint64() {
+					continue
+				}
+				if want := m.PaidAmt[pt.Id.Uint64()]; want != nil && pt.Amount != nil && want.Cmp(pt.Amount) != 0 {
+					w.violate("C05", "paid-amount-told-differs-from-proven-output", "paid-amount", "height %d: the execution layer was told withdrawal %d was paid with %s wei, the proven transaction pays %s wei", b.Height, pt.Id, pt.Amount, want)
+				}
+			}
+		}
+	}
 	// C05-1: status paths
 	w.Stats.OracleEvals["C05"]++
 	for id, cw := range cur.Wd {
@@ -513,6 +528,10 @@ func (w *World) checkCreditedDeposit(bi *BlockInfo, txi int, msg *bitcointypes.M
 	// value-exact: what the module queued for the execution layer is value - tax and tax
 	for _, q := range cur.Bitcoin.EthTxQueue.Deposits {
 		if q != nil && bytes.Equal(q.Txid, txid) && q.Txout == d.OutputIndex {
+			// C03: the tax is always smaller than the value (and something is credited)
+			if q.Tax >= value || q.Amount == 0 {
+				fail("tax-not-smaller-than-value", "output of %d satoshi (rate %d, cap %d) queued as amount %d + tax %d", value, params.DepositTaxRate, params.MaxDepositTax, q.Amount, q.Tax)
+			}
 			// C20: whatever the parameters, what the chain itself computed never eats the deposit
 			if q.Tax >= value || q.Amount == 0 || q.Amount > value {
 				w.violate("C20", "unsafe-deposit-consequence", "tax-eats-value", "height %d: deposit of %d satoshi with rate %d cap %d was queued as amount %d + tax %d", b.Height, value, params.DepositTaxRate, params.MaxDepositTax, q.Amount, q.Tax)
@@ -709,6 +728,10 @@ func (w *World) checkFinalize(bi *BlockInfo, txi int, t *bitcointypes.MsgFinaliz
 		}
 		if i < len(cand.Values) {
 			amt := new(big.Int).Mul(new(big.Int).SetUint64(cand.Values[i]), sat)
+			if m.PaidAmt == nil {
+				m.PaidAmt = map[uint64]*big.Int{}
+			}
+			m.PaidAmt[id] = amt
 			w.M.Owed.owe("paid", fmt.Sprintf("%d:%x:%d:%s", id, t.Txid, i, amt), "withdrawal paid", b.Height)
 		}
 	}
